@@ -57,6 +57,10 @@ package manifam
 // versions, both current versions, every mask that affects the current version, 3 levels,
 // styles rotating), every two-advisory scenario over 4..6 versions, and a sample of the
 // larger two- and three-advisory scenarios.
+//
+// A second scenario family, advisories that list several artifacts released in lockstep, is in
+// c18_lockstep_test.go (c18GrpPhase, run at the end of TestC18_override; its cases carry the
+// leg name "lockstep").
 
 import (
 	"encoding/json"
@@ -97,6 +101,8 @@ type c18OvrCase struct {
 var c18OvrLists = map[string][]string{
 	"a": {"1.0", "1.0.1", "1.1", "1.2-rc-1", "1.2.1", "2.0", "2.0.1", "2.1", "3.0-beta-1"},
 	"b": {"2.0", "2.0.1", "2.0.2", "2.0.3", "2.1", "2.1.1", "2.2", "3.0", "3.1"},
+	// three-component spelling, used by the lockstep family only (c18_lockstep_test.go)
+	"c": {"1.0.0", "1.5.0", "2.0.0", "2.0.1", "2.5.0", "2.5.1", "3.0.0", "3.1.0", "3.1.1"},
 }
 
 const c18OvrStyles = 5
@@ -534,7 +540,14 @@ func TestC18_override(t *testing.T) {
 	defer func() { col.Flush(completed) }()
 	if ev.Replaying() {
 		var probe c18OvrCase
-		if err := ev.ReplayCase(os.Getenv("VERIF_REPLAY"), &probe); err != nil || probe.Leg != c18OvrLeg {
+		err := ev.ReplayCase(os.Getenv("VERIF_REPLAY"), &probe)
+		if err == nil && probe.Leg == c18GrpLeg {
+			if ev.HandleReplay(t, col, propC18Grp) {
+				completed = true
+				return
+			}
+		}
+		if err != nil || probe.Leg != c18OvrLeg {
 			t.Skip("replay file is not for the override leg")
 		}
 	}
@@ -673,6 +686,9 @@ func TestC18_override(t *testing.T) {
 				return
 			}
 		}
+	}
+	if !c18GrpPhase(t, col, e) {
+		return
 	}
 	completed = true
 }
